@@ -3,6 +3,778 @@ import Reduino.Host.Led
 import Reduino.Host.RGBLed
 import Reduino.Host.Servo
 import Reduino.Host.DCMotor
+import Mathlib.Tactic.NormNum
+import Mathlib.Tactic.Positivity
+import Mathlib.Algebra.BigOperators.Group.List.Basic
 /- helper lemmas for Props/C19.lean -/
+set_option linter.unusedSectionVars false
 namespace Reduino.Lemmas.C19
+open Reduino Reduino.Host
+
+variable {K : Type} [Field K] [LinearOrder K] [IsStrictOrderedRing K] [FloorRing K]
+
+/-! ## Numbers -/
+
+theorem toF_int (n : Int) : (Val.int n : Val K).toF = (n : K) := rfl
+theorem toF_flt (x : K) : (Val.flt x : Val K).toF = x := rfl
+
+theorem lt_iff (a b : Val K) : Val.lt a b = true ↔ a.toF < b.toF := by
+  cases a <;> cases b <;> simp only [Val.lt, decide_eq_true_eq]
+  all_goals simp [Val.toF]
+
+theorem le_iff (a b : Val K) : Val.le a b = true ↔ a.toF ≤ b.toF := by
+  cases a <;> cases b <;> simp only [Val.le, decide_eq_true_eq]
+  all_goals simp [Val.toF]
+
+theorem lt_false_iff (a b : Val K) : Val.lt a b = false ↔ b.toF ≤ a.toF := by
+  rw [← not_lt, ← lt_iff]; simp
+
+theorem le_false_iff (a b : Val K) : Val.le a b = false ↔ b.toF < a.toF := by
+  rw [← not_le, ← le_iff]; simp
+
+theorem roundHEK_intCast (n : Int) : roundHEK (n : K) = n := by
+  simp [roundHEK]
+
+theorem floor_le_roundHEK (x : K) : ⌊x⌋ ≤ roundHEK x := by
+  unfold roundHEK; simp only []; split_ifs <;> omega
+
+theorem roundHEK_le_floor_add_one (x : K) : roundHEK x ≤ ⌊x⌋ + 1 := by
+  unfold roundHEK; simp only []; split_ifs <;> omega
+
+theorem roundHEK_mono {x y : K} (h : x ≤ y) : roundHEK x ≤ roundHEK y := by
+  have hfg : ⌊x⌋ ≤ ⌊y⌋ := Int.floor_le_floor h
+  rcases lt_or_eq_of_le hfg with hlt | heq
+  · calc roundHEK x ≤ ⌊x⌋ + 1 := roundHEK_le_floor_add_one x
+      _ ≤ ⌊y⌋ := hlt
+      _ ≤ roundHEK y := floor_le_roundHEK y
+  · have hxy : x - (⌊y⌋ : K) ≤ y - (⌊y⌋ : K) := by linarith
+    unfold roundHEK; simp only []; rw [heq]
+    split_ifs <;> first | omega | (exfalso; linarith)
+
+theorem trunc_bounds {x : K} (h0 : 0 ≤ x) (h1 : x ≤ 255) :
+    0 ≤ (Num.trunc x : Int) ∧ (Num.trunc x : Int) ≤ 255 := by
+  rw [trunc_eq, if_pos h0]
+  refine ⟨Int.floor_nonneg.mpr h0, ?_⟩
+  have : ((⌊x⌋ : Int) : K) ≤ ((255 : Int) : K) := by
+    have := Int.floor_le x
+    push_cast; linarith
+  exact Int.cast_le.mp this
+
+/-- a validated brightness value converts to an int in 0..255 -/
+theorem toInt_bounds {v : Val K} (h : Val.between (.int 0) v (.int 255) = true) :
+    0 ≤ v.toInt ∧ v.toInt ≤ 255 := by
+  cases v with
+  | int n => simpa [Val.between, Val.le, Val.toInt] using h
+  | flt x =>
+    simp only [Val.between, Bool.and_eq_true, le_iff, toF_int, toF_flt] at h
+    exact trunc_bounds (by simpa using h.1) (by simpa using h.2)
+
+theorem nonneg_of_not_lt_zero {d : Val K} (h : ¬ Val.lt d (.int 0) = true) : 0 ≤ d.toF := by
+  rw [lt_iff, not_lt, toF_int] at h
+  simpa using h
+
+theorem pos_of_not_le_zero {n : Int} (h : ¬ Val.le (.int n : Val K) (.int 0) = true) : 0 < n := by
+  simpa [Val.le] using h
+
+/-! ## Led -/
+
+def LedInv (s : Led) : Prop := 0 ≤ s.brightness ∧ s.brightness ≤ 255 ∧ (s.state = true ↔ 0 < s.brightness)
+
+theorem ledInv_setB {b : Int} (h0 : 0 ≤ b) (h1 : b ≤ 255) : LedInv (Led.setB b) := by
+  simp [LedInv, Led.setB, h0, h1]
+
+theorem ledInv_flashGo (delay : Val K) : ∀ (p : List (Val K)) (s : Led) (acc : List (Val K)),
+    LedInv s → LedInv (Led.flashGo delay s p acc).st := by
+  intro p
+  induction p with
+  | nil => intro s acc h; simpa [Led.flashGo] using h
+  | cons e rest ih =>
+    intro s acc h
+    unfold Led.flashGo
+    simp only []
+    by_cases hbad : (!(Val.isZero e || (Val.le e (.int 1) && Val.le (.int 1) e)) &&
+        !(Val.between (.int 0) e (.int 255))) = true
+    · rw [if_pos hbad]; exact h
+    · rw [if_neg hbad]
+      have hs' : LedInv (if Val.isZero e = true then Led.setB 0
+          else if (Val.le e (.int 1) && Val.le (.int 1) e) = true then Led.setB 255
+          else Led.setB e.toInt) := by
+        split_ifs with hz ho
+        · exact ledInv_setB (by norm_num) (by norm_num)
+        · exact ledInv_setB (by norm_num) (by norm_num)
+        · have hb : Val.between (.int 0) e (.int 255) = true := by
+            simp only [hz, ho] at hbad
+            simpa using hbad
+          exact ledInv_setB (toInt_bounds hb).1 (toInt_bounds hb).2
+      cases rest with
+      | nil => exact hs'
+      | cons e' rest' => exact ih _ _ hs'
+
+theorem ledInv_step (s : Led) (op : LedOp K) (h : LedInv s) : LedInv (Led.step s op).st := by
+  have h255 : LedInv (Led.setB 255) := ledInv_setB (by norm_num) (by norm_num)
+  have h0 : LedInv (Led.setB 0) := ledInv_setB (by norm_num) (by norm_num)
+  cases op with
+  | on => exact h255
+  | off => exact h0
+  | toggle => simp only [Led.step]; split_ifs <;> assumption
+  | setBrightness v =>
+    simp only [Led.step, Led.setBrightness]
+    split_ifs with hb
+    · exact ledInv_setB (toInt_bounds hb).1 (toInt_bounds hb).2
+    · exact h
+  | blink d times =>
+    simp only [Led.step]
+    split_ifs
+    · exact h
+    · exact h
+    · cases times <;> first | exact h | exact h0
+  | fadeIn stepv delay =>
+    simp only [Led.step]
+    split_ifs
+    · exact h
+    · exact h
+    · cases stepv with
+      | flt x => exact h
+      | int k => simp only []; split_ifs <;> first | exact h | exact h255
+  | fadeOut stepv delay =>
+    simp only [Led.step]
+    split_ifs
+    · exact h
+    · exact h
+    · cases stepv with
+      | flt x => exact h
+      | int k => simp only []; split_ifs <;> first | exact h | exact h0
+  | flashPattern p delay =>
+    simp only [Led.step]
+    split_ifs
+    · exact h
+    · exact ledInv_flashGo delay p s [] h
+
+theorem ledInv_run (ops : List (LedOp K)) : LedInv (Led.run ops) := by
+  unfold Led.run
+  have : ∀ (ops : List (LedOp K)) (s : Led), LedInv s → LedInv (ops.foldl (fun s op => (Led.step s op).st) s) := by
+    intro ops
+    induction ops with
+    | nil => intro s h; exact h
+    | cons op rest ih => intro s h; exact ih _ (ledInv_step s op h)
+  exact this ops _ (by simp [LedInv])
+
+theorem led_atomic (s : Led) (op : LedOp K) (e : Exc)
+    (hfp : ∀ p d, op ≠ .flashPattern p d) (h : (Led.step s op).res = .raise e) :
+    (Led.step s op).st = s := by
+  cases op with
+  | on => cases h
+  | off => cases h
+  | toggle => cases h
+  | setBrightness v =>
+    simp only [Led.step, Led.setBrightness] at h ⊢
+    split_ifs at h ⊢
+    rfl
+  | blink d times =>
+    simp only [Led.step] at h ⊢
+    split_ifs at h ⊢ <;> try rfl
+    cases times with
+    | flt x => rfl
+    | int n => cases h
+  | fadeIn stepv delay =>
+    simp only [Led.step] at h ⊢
+    split_ifs at h ⊢ <;> try rfl
+    cases stepv with
+    | flt x => rfl
+    | int k => simp only [] at h ⊢; split_ifs at h ⊢; rfl
+  | fadeOut stepv delay =>
+    simp only [Led.step] at h ⊢
+    split_ifs at h ⊢ <;> try rfl
+    cases stepv with
+    | flt x => rfl
+    | int k => simp only [] at h ⊢; split_ifs at h ⊢; rfl
+  | flashPattern p d => exact absurd rfl (hfp p d)
+
+theorem led_blink_sleeps (s : Led) (d : Val K) (n : Int)
+    (h : (Led.step s (.blink d (.int n))).res = .ok) :
+    (Led.step s (.blink d (.int n))).sleeps = List.replicate (2 * n.toNat) d ∧ 0 < n := by
+  simp only [Led.step] at h ⊢
+  split_ifs at h ⊢ with h1 h2
+  exact ⟨rfl, pos_of_not_le_zero h2⟩
+
+/-! ## RGBLed -/
+
+theorem interp_eq (cur goal i n : Int) : RGB.interp (α := K) cur goal i n =
+    roundHEK ((cur : K) + (((goal - cur) * i : Int) : K) / (n : K)) := rfl
+
+theorem component_ok {v : Val K} {n : Int} (h : RGB.component v = .ok n) : 0 ≤ n ∧ n ≤ 255 := by
+  cases v with
+  | flt x => simp [RGB.component] at h
+  | int m =>
+    simp only [RGB.component] at h
+    split_ifs at h with hm
+    cases h; exact hm
+
+theorem triple_ok {r g b : Val K} {c : Color} (h : RGB.triple r g b = .ok c) :
+    (0 ≤ c.1 ∧ c.1 ≤ 255) ∧ (0 ≤ c.2.1 ∧ c.2.1 ≤ 255) ∧ (0 ≤ c.2.2 ∧ c.2.2 ≤ 255) := by
+  unfold RGB.triple at h
+  cases hr : RGB.component r with
+  | error e => simp [hr, bind, Except.bind] at h
+  | ok r' =>
+    cases hg : RGB.component g with
+    | error e => simp [hr, hg, bind, Except.bind] at h
+    | ok g' =>
+      cases hb : RGB.component b with
+      | error e => simp [hr, hg, hb, bind, Except.bind] at h
+      | ok b' =>
+        simp [hr, hg, hb, bind, Except.bind, pure, Except.pure] at h
+        subst h
+        exact ⟨component_ok hr, component_ok hg, component_ok hb⟩
+
+def RGBInv (s : RGB) : Prop :=
+  (0 ≤ s.color.1 ∧ s.color.1 ≤ 255) ∧ (0 ≤ s.color.2.1 ∧ s.color.2.1 ≤ 255) ∧
+  (0 ≤ s.color.2.2 ∧ s.color.2.2 ≤ 255) ∧
+  (s.state = true ↔ (s.color.1 ≠ 0 ∨ s.color.2.1 ≠ 0 ∨ s.color.2.2 ≠ 0))
+
+theorem rgbInv_ofColor {c : Color}
+    (h : (0 ≤ c.1 ∧ c.1 ≤ 255) ∧ (0 ≤ c.2.1 ∧ c.2.1 ≤ 255) ∧ (0 ≤ c.2.2 ∧ c.2.2 ≤ 255)) :
+    RGBInv (RGB.ofColor c) := by
+  obtain ⟨h1, h2, h3⟩ := h
+  refine ⟨h1, h2, h3, ?_⟩
+  simp only [RGB.ofColor, Bool.or_eq_true, decide_eq_true_eq]
+  omega
+
+theorem rgb_not_ok (s : RGB) (op : RGBOp K) (h : (RGB.step s op).res ≠ .ok) : (RGB.step s op).st = s := by
+  cases op with
+  | setColor r g b =>
+    simp only [RGB.step] at h ⊢
+    cases ht : RGB.triple r g b <;> simp only [ht] at h ⊢
+    exact absurd rfl h
+  | on r g b =>
+    simp only [RGB.step] at h ⊢
+    cases ht : RGB.triple r g b <;> simp only [ht] at h ⊢
+    exact absurd rfl h
+  | off => exact absurd rfl h
+  | fade r g b d n =>
+    simp only [RGB.step] at h ⊢
+    cases ht : RGB.triple r g b <;> simp only [ht] at h ⊢ <;> split_ifs at h ⊢ <;> try rfl
+    · exact absurd rfl h
+    · cases n with
+      | flt x => rfl
+      | int k => exact absurd rfl h
+  | blink r g b t d =>
+    simp only [RGB.step] at h ⊢
+    cases ht : RGB.triple r g b <;> simp only [ht] at h ⊢ <;> split_ifs at h ⊢ <;> try rfl
+    cases t with
+    | flt x => rfl
+    | int k => exact absurd rfl h
+
+theorem interp_zero (cur goal n : Int) : RGB.interp (α := K) cur goal 0 n = cur := by
+  rw [interp_eq]; simp [roundHEK_intCast]
+
+theorem interp_end (cur goal n : Int) (hn : 0 < n) : RGB.interp (α := K) cur goal n n = goal := by
+  rw [interp_eq]
+  have hn' : (n : K) ≠ 0 := by exact_mod_cast hn.ne'
+  have : (cur : K) + (((goal - cur) * n : Int) : K) / (n : K) = (goal : K) := by
+    push_cast; field_simp; ring
+  rw [this, roundHEK_intCast]
+
+theorem interp_mono_up (cur goal n : Int) (hn : 0 < n) (hcg : cur ≤ goal) {i j : Int} (hij : i ≤ j) :
+    RGB.interp (α := K) cur goal i n ≤ RGB.interp (α := K) cur goal j n := by
+  rw [interp_eq, interp_eq]
+  apply roundHEK_mono
+  have hn' : (0 : K) < (n : K) := by exact_mod_cast hn
+  have : (((goal - cur) * i : Int) : K) ≤ (((goal - cur) * j : Int) : K) := by
+    exact_mod_cast Int.mul_le_mul_of_nonneg_left hij (by omega)
+  have := div_le_div_of_nonneg_right this hn'.le
+  linarith
+
+theorem interp_mono_down (cur goal n : Int) (hn : 0 < n) (hcg : goal ≤ cur) {i j : Int} (hij : i ≤ j) :
+    RGB.interp (α := K) cur goal j n ≤ RGB.interp (α := K) cur goal i n := by
+  rw [interp_eq, interp_eq]
+  apply roundHEK_mono
+  have hn' : (0 : K) < (n : K) := by exact_mod_cast hn
+  have : (((goal - cur) * j : Int) : K) ≤ (((goal - cur) * i : Int) : K) := by
+    exact_mod_cast Int.mul_le_mul_of_nonpos_left (by omega) hij
+  have := div_le_div_of_nonneg_right this hn'.le
+  linarith
+
+theorem fadeColor_end (c t : Color) (n : Int) (hn : 0 < n) : RGB.fadeColor (α := K) c t n n = t := by
+  simp [RGB.fadeColor, interp_end _ _ _ hn]
+
+theorem fade_spec (s : RGB) (r g b d n : Val K) (h : (RGB.step s (.fade r g b d n)).res = .ok) :
+    ∃ t, RGB.triple r g b = .ok t ∧ 0 ≤ d.toF ∧ (RGB.step s (.fade r g b d n)).st = RGB.ofColor t ∧
+      (((Val.isZero d = true ∨ s.color = t) ∧ (RGB.step s (.fade r g b d n)).trace = [t] ∧
+          (RGB.step s (.fade r g b d n)).sleeps = []) ∨
+       (Val.isZero d = false ∧ s.color ≠ t ∧ ∃ k : Int, n = .int k ∧ 0 < k ∧
+          (RGB.step s (.fade r g b d n)).trace =
+            (List.range k.toNat).map (fun j => RGB.fadeColor (α := K) s.color t (Int.ofNat (j + 1)) k) ∧
+          (RGB.step s (.fade r g b d n)).sleeps = List.replicate (k.toNat - 1) (.flt (d.toF / (k : K))))) := by
+  simp only [RGB.step] at h ⊢
+  cases ht : RGB.triple r g b <;> simp only [ht] at h ⊢ <;> split_ifs at h ⊢ <;>
+    try (cases h; done)
+  · rename_i t h1 h2 h3
+    refine ⟨t, rfl, nonneg_of_not_lt_zero h1, rfl, Or.inl ⟨?_, rfl, rfl⟩⟩
+    simpa using h3
+  · rename_i t h1 h2 h3
+    cases n with
+    | flt x => cases h
+    | int k =>
+      have hk : 0 < k := pos_of_not_le_zero h2
+      simp only [Bool.or_eq_true, beq_iff_eq, not_or, Bool.not_eq_true] at h3
+      refine ⟨t, rfl, nonneg_of_not_lt_zero h1, ?_, Or.inr ⟨h3.1, h3.2, k, rfl, hk, rfl, rfl⟩⟩
+      simp only []
+      congr 1
+      obtain ⟨m, hm⟩ : ∃ m : Nat, k.toNat = m + 1 := ⟨k.toNat - 1, by omega⟩
+      rw [hm, List.range_succ, List.map_append, List.map_singleton, List.getLastD_concat]
+      have : Int.ofNat (m + 1) = k := by simp only [Int.ofNat_eq_natCast]; omega
+      rw [this]
+      exact fadeColor_end _ _ _ hk
+
+theorem pairwise_cons_map_range {β : Type} (R : β → β → Prop) (g : Nat → β) (x0 : β)
+    (h0 : ∀ j, R x0 (g j)) (hm : ∀ i j, i < j → R (g i) (g j)) (m : Nat) :
+    List.Pairwise R (x0 :: (List.range m).map g) := by
+  rw [List.pairwise_cons, List.pairwise_map]
+  refine ⟨?_, List.pairwise_lt_range.imp (fun {a b} hab => hm a b hab)⟩
+  intro x hx
+  obtain ⟨j, _, rfl⟩ := List.mem_map.mp hx
+  exact h0 j
+
+def MonoChan (f : Color → Int) (l : List Color) : Prop :=
+  List.Pairwise (fun a b => f a ≤ f b) l ∨ List.Pairwise (fun a b => f b ≤ f a) l
+
+theorem monoChan_pair (f : Color → Int) (a b : Color) : MonoChan f [a, b] := by
+  rcases le_total (f a) (f b) with h | h
+  · left; simp [h]
+  · right; simp [h]
+
+theorem monoChan_interp (f : Color → Int) (c0 : Color) (cols : Nat → Color) (cur goal n : Int) (hn : 0 < n)
+    (hf0 : f c0 = cur) (hf : ∀ j, f (cols j) = RGB.interp (α := K) cur goal (Int.ofNat (j + 1)) n) (m : Nat) :
+    MonoChan f (c0 :: (List.range m).map cols) := by
+  have h0 : f c0 = RGB.interp (α := K) cur goal 0 n := by rw [interp_zero, hf0]
+  rcases le_total cur goal with hcg | hcg
+  · left
+    apply pairwise_cons_map_range
+    · intro j; rw [h0, hf]; exact interp_mono_up _ _ _ hn hcg (by simp only [Int.ofNat_eq_natCast]; omega)
+    · intro i j hij; rw [hf, hf]
+      exact interp_mono_up _ _ _ hn hcg (by simp only [Int.ofNat_eq_natCast]; omega)
+  · right
+    apply pairwise_cons_map_range
+    · intro j; rw [h0, hf]; exact interp_mono_down _ _ _ hn hcg (by simp only [Int.ofNat_eq_natCast]; omega)
+    · intro i j hij; rw [hf, hf]
+      exact interp_mono_down _ _ _ hn hcg (by simp only [Int.ofNat_eq_natCast]; omega)
+
+theorem rgb_fade_monotone (s : RGB) (r g b d n : Val K)
+    (h : (RGB.step s (.fade r g b d n)).res = .ok) :
+    let l := s.color :: (RGB.step s (.fade r g b d n)).trace
+    MonoChan (·.1) l ∧ MonoChan (·.2.1) l ∧ MonoChan (·.2.2) l := by
+  obtain ⟨t, _, _, _, hc⟩ := fade_spec s r g b d n h
+  intro l
+  rcases hc with ⟨_, htr, _⟩ | ⟨_, _, k, _, hk, htr, _⟩
+  · simp only [l, htr]
+    exact ⟨monoChan_pair _ _ _, monoChan_pair _ _ _, monoChan_pair _ _ _⟩
+  · simp only [l, htr]
+    exact ⟨monoChan_interp (K := K) _ _ _ s.color.1 t.1 k hk rfl (fun _ => rfl) _,
+      monoChan_interp (K := K) _ _ _ s.color.2.1 t.2.1 k hk rfl (fun _ => rfl) _,
+      monoChan_interp (K := K) _ _ _ s.color.2.2 t.2.2 k hk rfl (fun _ => rfl) _⟩
+
+theorem sum_replicate_toF (m : Nat) (x : K) :
+    ((List.replicate m (Val.flt x)).map Val.toF).sum = (m : K) * x := by
+  simp [List.map_replicate, List.sum_replicate, toF_flt]
+
+theorem rgb_fade_sleep_le (s : RGB) (r g b d n : Val K)
+    (h : (RGB.step s (.fade r g b d n)).res = .ok) :
+    (((RGB.step s (.fade r g b d n)).sleeps.map Val.toF).sum : K) ≤ d.toF := by
+  obtain ⟨t, _, hd, _, hc⟩ := fade_spec s r g b d n h
+  rcases hc with ⟨_, _, hsl⟩ | ⟨_, _, k, _, hk, _, hsl⟩
+  · rw [hsl]; simpa using hd
+  · rw [hsl, sum_replicate_toF]
+    have hk' : (0 : K) < (k : K) := by exact_mod_cast hk
+    have hm : ((k.toNat - 1 : Nat) : K) ≤ (k : K) := by
+      have : ((k.toNat - 1 : Nat) : Int) ≤ k := by omega
+      exact_mod_cast this
+    rw [mul_div_assoc', div_le_iff₀ hk']
+    nlinarith [mul_le_mul_of_nonneg_right hm hd]
+
+theorem rgb_inv_step (s : RGB) (op : RGBOp K) (h : RGBInv s) : RGBInv (RGB.step s op).st := by
+  by_cases hok : (RGB.step s op).res = .ok
+  swap
+  · rw [rgb_not_ok s op hok]; exact h
+  cases op with
+  | setColor r g b =>
+    simp only [RGB.step] at hok ⊢
+    cases ht : RGB.triple r g b <;> simp only [ht] at hok ⊢
+    · cases hok
+    · exact rgbInv_ofColor (triple_ok ht)
+  | on r g b =>
+    simp only [RGB.step] at hok ⊢
+    cases ht : RGB.triple r g b <;> simp only [ht] at hok ⊢
+    · cases hok
+    · exact rgbInv_ofColor (triple_ok ht)
+  | off => exact rgbInv_ofColor (by simp)
+  | fade r g b d n =>
+    obtain ⟨t, ht, _, hst, _⟩ := fade_spec s r g b d n hok
+    rw [hst]; exact rgbInv_ofColor (triple_ok ht)
+  | blink r g b t d =>
+    have : (RGB.step s (.blink r g b t d)).st = RGB.ofColor s.color := by
+      simp only [RGB.step] at hok ⊢
+      cases ht : RGB.triple r g b <;> simp only [ht] at hok ⊢ <;> split_ifs at hok ⊢
+      cases t with
+      | flt x => cases hok
+      | int k => rfl
+    rw [this]; exact rgbInv_ofColor ⟨h.1, h.2.1, h.2.2.1⟩
+
+theorem rgb_inv_run (ops : List (RGBOp K)) : RGBInv (RGB.run ops) := by
+  unfold RGB.run
+  have : ∀ (ops : List (RGBOp K)) (s : RGB), RGBInv s → RGBInv (ops.foldl (fun s op => (RGB.step s op).st) s) := by
+    intro ops
+    induction ops with
+    | nil => intro s h; exact h
+    | cons op rest ih => intro s h; exact ih _ (rgb_inv_step s op h)
+  exact this ops _ (by simp [RGBInv])
+
+theorem rgb_blink_restores (s : RGB) (r g b t d : Val K)
+    (h : (RGB.step s (.blink r g b t d)).res = .ok) :
+    (RGB.step s (.blink r g b t d)).st.color = s.color ∧
+    ∃ n : Int, t = .int n ∧ 0 < n ∧
+      (RGB.step s (.blink r g b t d)).sleeps = List.replicate (2 * n.toNat) d := by
+  simp only [RGB.step] at h ⊢
+  cases ht : RGB.triple r g b <;> simp only [ht] at h ⊢ <;> split_ifs at h ⊢ with h1 h2
+  cases t with
+  | flt x => cases h
+  | int k => exact ⟨rfl, k, rfl, pos_of_not_le_zero h1, rfl⟩
+
+
+theorem rgb_fade_target (s : RGB) (r g b d n : Val K) (t : Color)
+    (ht : RGB.triple r g b = .ok t) (h : (RGB.step s (.fade r g b d n)).res = .ok) :
+    (RGB.step s (.fade r g b d n)).st.color = t := by
+  obtain ⟨t', ht', _, hst, _⟩ := fade_spec s r g b d n h
+  rw [ht] at ht'; cases ht'
+  rw [hst]; rfl
+
+theorem rgb_fade_steps (s : RGB) (r g b d : Val K) (n : Int) (t : Color)
+    (ht : RGB.triple r g b = .ok t) (h : (RGB.step s (.fade r g b d (.int n))).res = .ok)
+    (hd : Val.isZero d = false) (hne : s.color ≠ t) :
+    (RGB.step s (.fade r g b d (.int n))).trace.length = n.toNat ∧ 0 < n := by
+  obtain ⟨t', ht', _, _, hc⟩ := fade_spec s r g b d (.int n) h
+  rw [ht] at ht'; cases ht'
+  rcases hc with ⟨hz, _, _⟩ | ⟨_, _, k, hnk, hk, htr, _⟩
+  · rcases hz with hz | hz
+    · rw [hd] at hz; cases hz
+    · exact absurd hz hne
+  · cases hnk
+    rw [htr]; simp [hk]
+
+/-! ## Servo -/
+
+def ServoInv (s : Servo K) : Prop :=
+  s.minA < s.maxA ∧ s.minP < s.maxP ∧
+  s.minA ≤ s.angle ∧ s.angle ≤ s.maxA ∧ s.minP ≤ s.pulse ∧ s.pulse ≤ s.maxP ∧
+  s.pulse = s.angleToPulse s.angle ∧ s.angle = s.pulseToAngle s.pulse
+
+/-- the affine map of `[a0,a1]` onto `[p0,p1]` and its inverse -/
+theorem affine_map {a0 a1 p0 p1 a : K} (ha : a0 < a1) (hp : p0 < p1) (h0 : a0 ≤ a) (h1 : a ≤ a1) :
+    p0 ≤ p0 + (a - a0) / (a1 - a0) * (p1 - p0) ∧ p0 + (a - a0) / (a1 - a0) * (p1 - p0) ≤ p1 ∧
+    a = a0 + (p0 + (a - a0) / (a1 - a0) * (p1 - p0) - p0) / (p1 - p0) * (a1 - a0) := by
+  have hA : 0 < a1 - a0 := sub_pos.mpr ha
+  have hP : 0 < p1 - p0 := sub_pos.mpr hp
+  have hf0 : 0 ≤ (a - a0) / (a1 - a0) := div_nonneg (sub_nonneg.mpr h0) hA.le
+  have hf1 : (a - a0) / (a1 - a0) ≤ 1 := by rw [div_le_one hA]; linarith
+  refine ⟨?_, ?_, ?_⟩
+  · nlinarith [mul_nonneg hf0 hP.le]
+  · nlinarith [mul_le_mul_of_nonneg_right hf1 hP.le]
+  · field_simp; ring
+
+theorem servo_inv_create (a b c d : Val K) (s : Servo K) (h : Servo.create a b c d = .ok s) :
+    ServoInv s := by
+  simp only [Servo.create] at h
+  split_ifs at h with h1 h2
+  cases h
+  have hA : a.toF < b.toF := by rw [← le_false_iff]; simpa using h1
+  have hP : c.toF < d.toF := by rw [← le_false_iff]; simpa using h2
+  refine ⟨hA, hP, le_refl _, hA.le, le_refl _, hP.le, ?_, ?_⟩ <;>
+    simp [Servo.angleToPulse, Servo.pulseToAngle]
+
+theorem servo_inv_step (s : Servo K) (op : ServoOp K) (h : ServoInv s) :
+    ServoInv (Servo.step s op).1 := by
+  obtain ⟨hA, hP, h3, h4, h5, h6, h7, h8⟩ := h
+  cases op with
+  | write a =>
+    simp only [Servo.step]
+    split_ifs with hb
+    · simp only [Val.between, Bool.and_eq_true, le_iff, toF_flt] at hb
+      obtain ⟨q1, q2, q3⟩ := affine_map hA hP hb.1 hb.2
+      exact ⟨hA, hP, hb.1, hb.2, q1, q2, rfl, q3⟩
+    · exact ⟨hA, hP, h3, h4, h5, h6, h7, h8⟩
+  | writeUs p =>
+    simp only [Servo.step]
+    split_ifs with hb
+    · simp only [Val.between, Bool.and_eq_true, le_iff, toF_flt] at hb
+      obtain ⟨q1, q2, q3⟩ := affine_map hP hA hb.1 hb.2
+      exact ⟨hA, hP, q1, q2, hb.1, hb.2, q3, rfl⟩
+    · exact ⟨hA, hP, h3, h4, h5, h6, h7, h8⟩
+
+theorem servo_inv_run (s : Servo K) (ops : List (ServoOp K)) (h : ServoInv s) :
+    ServoInv (Servo.run s ops) := by
+  unfold Servo.run
+  induction ops generalizing s with
+  | nil => exact h
+  | cons op rest ih => exact ih _ (servo_inv_step s op h)
+
+theorem servo_roundtrip (s : Servo K) (v : Val K) :
+    ((Servo.step s (.write v)).2 = .ok → (Servo.step s (.write v)).1.angle = v.toF) ∧
+    ((Servo.step s (.writeUs v)).2 = .ok → (Servo.step s (.writeUs v)).1.pulse = v.toF) := by
+  constructor <;> intro h <;> simp only [Servo.step] at h ⊢ <;> split_ifs at h ⊢ <;> rfl
+
+theorem servo_atomic (s : Servo K) (op : ServoOp K) (e : Exc) (h : (Servo.step s op).2 = .raise e) :
+    (Servo.step s op).1 = s := by
+  cases op <;> simp only [Servo.step] at h ⊢ <;> split_ifs at h ⊢ <;> rfl
+
+/-! ## DCMotor -/
+
+def MotorInv (s : Motor K) : Prop :=
+  (-1 : K) ≤ s.speed ∧ s.speed ≤ 1 ∧
+  s.applied = (if s.inverted then -s.speed else s.speed) ∧
+  (s.mode = .drive ↔ s.applied ≠ 0)
+
+/-- the shape of `mode` after any `_apply_speed` -/
+def ModeLaw (s : Motor K) : Prop := s.mode = if s.applied ≠ 0 then .drive else .coast
+
+theorem zero_eq : (Motor.zero : K) = 0 := by simp [Motor.zero]
+theorem one_eq : (Motor.one : K) = 1 := by simp [Motor.one]
+
+theorem clamp_eq (v : Val K) :
+    Motor.clamp v = if 1 < v.toF then 1 else if v.toF < -1 then -1 else v.toF := by
+  simp only [Motor.clamp, one_eq]
+
+theorem clamp_bounds (v : Val K) : (-1 : K) ≤ Motor.clamp v ∧ Motor.clamp v ≤ 1 := by
+  rw [clamp_eq]; split_ifs <;> constructor <;> linarith
+
+theorem clamp_id {x : K} (h0 : -1 ≤ x) (h1 : x ≤ 1) : Motor.clamp (.flt x) = x := by
+  rw [clamp_eq, toF_flt, if_neg (not_lt.mpr h1), if_neg (not_lt.mpr h0)]
+
+theorem clamp_mono {x y : K} (h : x ≤ y) : Motor.clamp (.flt x) ≤ Motor.clamp (.flt y) := by
+  rw [clamp_eq, clamp_eq, toF_flt, toF_flt]
+  split_ifs <;> linarith
+
+theorem apply_mode (s : Motor K) (sp : K) :
+    (Motor.apply s sp).mode = if (Motor.apply s sp).applied ≠ 0 then .drive else .coast := by
+  simp only [Motor.apply, zero_eq]
+  by_cases h : (if s.inverted = true then -sp else sp) = 0
+  · simp [h]
+  · rcases lt_or_gt_of_ne h with h' | h' <;> simp [h, h', not_lt.mpr h'.le]
+
+theorem motorInv_apply (s : Motor K) (sp : K) (hs : s.speed = sp) (h0 : -1 ≤ sp) (h1 : sp ≤ 1) :
+    MotorInv (Motor.apply s sp) := by
+  refine ⟨?_, ?_, ?_, ?_⟩
+  · show -1 ≤ s.speed; rw [hs]; exact h0
+  · show s.speed ≤ 1; rw [hs]; exact h1
+  · show (if s.inverted = true then -sp else sp) = if s.inverted = true then -s.speed else s.speed
+    rw [hs]
+  · rw [apply_mode]; split_ifs with h <;> simp [h]
+
+theorem setSpeed_speed (s : Motor K) (v : Val K) : (Motor.setSpeed s v).speed = Motor.clamp v := rfl
+
+theorem motorInv_setSpeed (s : Motor K) (v : Val K) : MotorInv (Motor.setSpeed s v) :=
+  motorInv_apply _ _ rfl (clamp_bounds v).1 (clamp_bounds v).2
+
+theorem modeLaw_setSpeed (s : Motor K) (v : Val K) : ModeLaw (Motor.setSpeed s v) := apply_mode _ _
+
+theorem rampGo_succ (start stepv : K) (delay : Val K) (k : Nat) (s : Motor K) (sl : List (Val K)) (tr : List K) :
+    Motor.rampGo start stepv delay (k + 1) s sl tr =
+      Motor.rampGo start stepv delay k (Motor.setSpeed s (.flt (start + stepv * ((20 - k : Nat) : K))))
+        (if Val.lt (.int 0) delay = true then delay :: sl else sl)
+        (Motor.clamp (.flt (start + stepv * ((20 - k : Nat) : K))) :: tr) := by
+  simp [Motor.rampGo, Motor.rampSteps, setSpeed_speed]
+
+theorem rampGo_pred (P : Motor K → Prop) (hP : ∀ s v, P (Motor.setSpeed s v)) (start stepv : K) (delay : Val K) :
+    ∀ (k : Nat) (s : Motor K) (sl : List (Val K)) (tr : List K), P s →
+      P (Motor.rampGo start stepv delay k s sl tr).1 := by
+  intro k
+  induction k with
+  | zero => intro s sl tr h; exact h
+  | succ k ih => intro s sl tr _; rw [rampGo_succ]; exact ih _ _ _ (hP _ _)
+
+theorem rampGo_spec (start stepv : K) (delay : Val K) :
+    ∀ (k m : Nat) (s : Motor K) (sl : List (Val K)) (tr : List K), k + m = 20 →
+      (Motor.rampGo start stepv delay k s sl tr).2.1 =
+        sl.reverse ++ (if Val.lt (.int 0) delay = true then List.replicate k delay else []) ∧
+      (Motor.rampGo start stepv delay k s sl tr).2.2 =
+        tr.reverse ++ (List.range k).map (fun j => Motor.clamp (.flt (start + stepv * ((m + 1 + j : Nat) : K)))) ∧
+      (Motor.rampGo start stepv delay k s sl tr).1.speed =
+        if k = 0 then s.speed else Motor.clamp (.flt (start + stepv * 20)) := by
+  intro k
+  induction k with
+  | zero => intro m s sl tr _; simp [Motor.rampGo]
+  | succ k ih =>
+    intro m s sl tr hkm
+    rw [rampGo_succ]
+    obtain ⟨h1, h2, h3⟩ := ih (m + 1) (Motor.setSpeed s (.flt (start + stepv * ((20 - k : Nat) : K))))
+      (if Val.lt (.int 0) delay = true then delay :: sl else sl)
+      (Motor.clamp (.flt (start + stepv * ((20 - k : Nat) : K))) :: tr) (by omega)
+    have hm : 20 - k = m + 1 := by omega
+    refine ⟨?_, ?_, ?_⟩
+    · rw [h1]; split_ifs <;> simp [List.replicate_succ]
+    · rw [h2, List.range_succ_eq_map, hm]
+      simp only [List.reverse_cons, List.append_assoc, List.singleton_append, List.map_cons, List.map_map,
+        Nat.add_zero]
+      congr 2
+      apply List.map_congr_left
+      intro j _
+      simp only [Function.comp, Nat.succ_eq_add_one]
+      congr 5
+      omega
+    · rw [h3, setSpeed_speed, hm]
+      by_cases hk : k = 0
+      · have : m + 1 = 20 := by omega
+        simp [hk, this]
+      · simp [hk]
+
+theorem motorInv_init : MotorInv (Motor.init : Motor K) := by
+  simp [MotorInv, Motor.init, zero_eq]
+
+theorem ramp_st (s : Motor K) (t d : Val K) (h : ¬ Val.lt d (.int 0) = true) :
+    Motor.step s (.ramp t d) =
+      { st := (Motor.rampGo s.speed ((Motor.clamp t - s.speed) / 20) (.flt (d.toF / 20)) 20 s [] []).1,
+        res := .ok,
+        sleeps := (Motor.rampGo s.speed ((Motor.clamp t - s.speed) / 20) (.flt (d.toF / 20)) 20 s [] []).2.1,
+        trace := (Motor.rampGo s.speed ((Motor.clamp t - s.speed) / 20) (.flt (d.toF / 20)) 20 s [] []).2.2 } := by
+  simp [Motor.step, h, Motor.rampSteps, Val.div, toF_int]
+
+theorem motor_inv_step (s : Motor K) (op : MotorOp K) (h : MotorInv s) :
+    MotorInv (Motor.step s op).st := by
+  cases op with
+  | setSpeed v => exact motorInv_setSpeed _ _
+  | backward v => exact motorInv_setSpeed _ _
+  | stop => simp [MotorInv, Motor.step, zero_eq]
+  | coast => simp [MotorInv, Motor.step, zero_eq]
+  | invert => exact motorInv_apply _ _ rfl h.1 h.2.1
+  | ramp t d =>
+    by_cases hd : Val.lt d (.int 0) = true
+    · simp only [Motor.step, if_pos hd]; exact h
+    · rw [ramp_st s t d hd]
+      exact rampGo_pred MotorInv motorInv_setSpeed _ _ _ _ _ _ _ h
+  | runFor d v =>
+    simp only [Motor.step]
+    split_ifs
+    · exact h
+    · simp [MotorInv, zero_eq]
+
+theorem motor_inv_run (ops : List (MotorOp K)) : MotorInv (Motor.run ops) := by
+  unfold Motor.run
+  have : ∀ (ops : List (MotorOp K)) (s : Motor K), MotorInv s →
+      MotorInv (ops.foldl (fun s op => (Motor.step s op).st) s) := by
+    intro ops
+    induction ops with
+    | nil => intro s h; exact h
+    | cons op rest ih => intro s h; exact ih _ (motor_inv_step s op h)
+  exact this ops _ motorInv_init
+
+theorem motor_mode_law (s : Motor K) (op : MotorOp K) (_h : MotorInv s)
+    (hok : (Motor.step s op).res = .ok) :
+    (Motor.step s op).st.mode =
+      if (Motor.step s op).st.applied ≠ 0 then .drive
+      else match op with
+        | .stop => .brake
+        | .runFor _ _ => .brake
+        | _ => .coast := by
+  cases op with
+  | setSpeed v => exact modeLaw_setSpeed _ _
+  | backward v => exact modeLaw_setSpeed _ _
+  | stop => simp [Motor.step, zero_eq]
+  | coast => simp [Motor.step, zero_eq]
+  | invert => exact apply_mode _ _
+  | ramp t d =>
+    by_cases hd : Val.lt d (.int 0) = true
+    · simp only [Motor.step, if_pos hd] at hok; cases hok
+    · rw [ramp_st s t d hd]
+      rw [rampGo_succ]
+      exact rampGo_pred ModeLaw modeLaw_setSpeed _ _ _ _ _ _ _ (modeLaw_setSpeed _ _)
+  | runFor d v =>
+    by_cases hd : Val.lt d (.int 0) = true
+    · simp only [Motor.step, if_pos hd] at hok; cases hok
+    · simp [Motor.step, hd, zero_eq]
+
+theorem motor_atomic (s : Motor K) (op : MotorOp K) (e : Exc) (h : (Motor.step s op).res = .raise e) :
+    (Motor.step s op).st = s := by
+  cases op with
+  | setSpeed v => cases h
+  | backward v => cases h
+  | stop => cases h
+  | coast => cases h
+  | invert => cases h
+  | ramp t d =>
+    by_cases hd : Val.lt d (.int 0) = true
+    · simp only [Motor.step, if_pos hd]
+    · rw [ramp_st s t d hd] at h; cases h
+  | runFor d v =>
+    simp only [Motor.step] at h ⊢
+    split_ifs at h ⊢
+    rfl
+
+theorem motor_invert_involution (s : Motor K) (h : MotorInv s) :
+    let s2 := (Motor.step (Motor.step s .invert).st .invert).st
+    s2.inverted = s.inverted ∧ s2.speed = s.speed ∧ s2.applied = s.applied := by
+  obtain ⟨_, _, ha, _⟩ := h
+  simp only [Motor.step, Motor.apply, Bool.not_not]
+  exact ⟨trivial, trivial, ha.symm⟩
+
+theorem motor_run_for (s : Motor K) (d v : Val K) (hok : (Motor.step s (.runFor d v)).res = .ok) :
+    let o := Motor.step s (.runFor d v)
+    o.st.mode = .brake ∧ o.st.speed = 0 ∧ o.st.applied = 0 ∧ o.sleeps = [d] := by
+  simp only [Motor.step] at hok ⊢
+  split_ifs at hok ⊢
+  simp [zero_eq]
+
+theorem motor_ramp (s : Motor K) (t d : Val K) (h : MotorInv s)
+    (hok : (Motor.step s (.ramp t d)).res = .ok) :
+    let o := Motor.step s (.ramp t d)
+    o.st.speed = Motor.clamp t ∧ o.trace.length = 20 ∧
+    (List.Pairwise (· ≤ ·) (s.speed :: o.trace) ∨ List.Pairwise (· ≥ ·) (s.speed :: o.trace)) ∧
+    ((o.sleeps.map Val.toF).sum : K) ≤ d.toF := by
+  by_cases hd : Val.lt d (.int 0) = true
+  · simp only [Motor.step, if_pos hd] at hok; cases hok
+  have hd0 : 0 ≤ d.toF := nonneg_of_not_lt_zero hd
+  obtain ⟨ha0, ha1, _, _⟩ := h
+  obtain ⟨hT0, hT1⟩ := clamp_bounds t
+  intro o
+  have ho : o = _ := ramp_st s t d hd
+  obtain ⟨hsl, htr, hsp⟩ := rampGo_spec s.speed ((Motor.clamp t - s.speed) / 20) (.flt (d.toF / 20)) 20 0 s [] [] rfl
+  rw [ho]
+  simp only []
+  rw [hsl, htr, hsp]
+  refine ⟨?_, by simp, ?_, ?_⟩
+  · have : s.speed + (Motor.clamp t - s.speed) / 20 * 20 = Motor.clamp t := by field_simp; ring
+    rw [if_neg (by norm_num), this, clamp_id hT0 hT1]
+  · have hs0 : s.speed = Motor.clamp (.flt (s.speed + (Motor.clamp t - s.speed) / 20 * ((0 : Nat) : K))) := by
+      rw [Nat.cast_zero, mul_zero, add_zero, clamp_id ha0 ha1]
+    simp only [List.reverse_nil, List.nil_append]
+    rcases le_total s.speed (Motor.clamp t) with hle | hle
+    · left
+      have hst : 0 ≤ (Motor.clamp t - s.speed) / 20 := div_nonneg (sub_nonneg.mpr hle) (by norm_num)
+      have hmono : ∀ i j : Nat, i ≤ j →
+          Motor.clamp (.flt (s.speed + (Motor.clamp t - s.speed) / 20 * (i : K))) ≤
+          Motor.clamp (.flt (s.speed + (Motor.clamp t - s.speed) / 20 * (j : K))) := by
+        intro i j hij
+        apply clamp_mono
+        have : (i : K) ≤ (j : K) := by exact_mod_cast hij
+        have := mul_le_mul_of_nonneg_left this hst
+        linarith
+      apply pairwise_cons_map_range
+      · intro j; have := hmono 0 (0 + 1 + j) (by omega); rw [← hs0] at this; exact this
+      · intro i j hij; exact hmono (0 + 1 + i) (0 + 1 + j) (by omega)
+    · right
+      have hst : (Motor.clamp t - s.speed) / 20 ≤ 0 := div_nonpos_of_nonpos_of_nonneg (sub_nonpos.mpr hle) (by norm_num)
+      have hmono : ∀ i j : Nat, i ≤ j →
+          Motor.clamp (.flt (s.speed + (Motor.clamp t - s.speed) / 20 * (j : K))) ≤
+          Motor.clamp (.flt (s.speed + (Motor.clamp t - s.speed) / 20 * (i : K))) := by
+        intro i j hij
+        apply clamp_mono
+        have : (i : K) ≤ (j : K) := by exact_mod_cast hij
+        have := mul_le_mul_of_nonpos_left this hst
+        linarith
+      apply pairwise_cons_map_range
+      · intro j; have := hmono 0 (0 + 1 + j) (by omega); rw [← hs0] at this; exact this
+      · intro i j hij; exact hmono (0 + 1 + i) (0 + 1 + j) (by omega)
+  · split_ifs
+    · rw [List.reverse_nil, List.nil_append, sum_replicate_toF]
+      have : ((20 : Nat) : K) * (d.toF / 20) = d.toF := by push_cast; field_simp
+      rw [this]
+    · simpa using hd0
+
 end Reduino.Lemmas.C19
